@@ -17,7 +17,17 @@ import (
 
 var c10Values = []string{"", "1", "12", "a", "abc5", "5abc", "1/b", "é", "\xff", "{x}"}
 
-var c10Malformed = []string{"/a/{}", "/a/{:\\d+}", "/a/{x}{y}", "/a/{x}/{x}", "/a/{x}/{-x}", "/a/{x:(}", "/a/{x:[}/b", "/{-}/a"}
+// one malformed pattern per documented error class and per combination of parameter kinds
+var c10Malformed = func() []string {
+	kinds := []string{"", ":\\d+", ":digit"} // named, regexp, (interceptor under I1/I2; a regexp under I0)
+	out := []string{"/a/{}", "/a/{:\\d+}", "/a/{:digit}", "/{-}/a", "/{-:\\d+}", "/a/{x:(}", "/a/{x:[}/b", "/a/{x:*}", "/a/{x:a)|(b}", "/a/{x}/{y:(}"}
+	for _, k1 := range kinds {
+		for _, k2 := range kinds {
+			out = append(out, "/a/{x"+k1+"}{y"+k2+"}", "/a/{x"+k1+"}{y"+k2+"}/b", "/a/{x"+k1+"}/{x"+k2+"}", "/a/{x"+k1+"}/{-x"+k2+"}", "/{-x"+k1+"}/b/{x"+k2+"}")
+		}
+	}
+	return out
+}()
 
 type c10Item struct {
 	IC      string `json:"ic"`
@@ -88,12 +98,33 @@ func c10Job(raw json.RawMessage) (any, error) {
 		names = []string{"x", "y"}
 	}
 	keysAll := append(append([]string{}, names...), "extra")
-	vals := c10Values
+	vals := append([]string{}, c10Values...)
+	// values derived from the pattern: an accepted value followed by the literal text that follows the
+	// parameter (and more) - what an unanchored or prefix-only validation would let through
+	if perr == nil {
+		seenV := map[string]bool{}
+		for _, v := range vals {
+			seenV[v] = true
+		}
+		for i := range pp.Tokens {
+			t := &pp.Tokens[i]
+			if t.Kind == ref.Lit || i+1 >= len(pp.Tokens) {
+				continue
+			}
+			lit := pp.Tokens[i+1].Text
+			for _, d := range []string{simpleValue(t) + lit, simpleValue(t) + lit + "zz", simpleValue(t) + lit[:1]} {
+				if !seenV[d] {
+					seenV[d] = true
+					vals = append(vals, d)
+				}
+			}
+		}
+	}
 	if len(names) >= 2 {
-		vals = c10Values[:7]
+		vals = append(append([]string{}, vals[:7]...), vals[len(c10Values):]...)
 	}
 	if len(names) >= 3 {
-		vals = c10Values[:4]
+		vals = vals[:4]
 	}
 
 	// routers for the strict mode: pattern live / not live / only a structural prefix / removed again
@@ -373,9 +404,7 @@ func init() {
 		var items []c10Item
 		for _, icn := range []string{"", "I1", "I2"} {
 			pool := append([]string{}, poolD(icn, rc.Tier)...)
-			if icn == "" {
-				pool = append(pool, c10Malformed...)
-			}
+			pool = append(pool, c10Malformed...)
 			for _, p := range pool {
 				items = append(items, c10Item{IC: icn, Pattern: p})
 			}
